@@ -1,8 +1,8 @@
 package main
 
 import (
-	"go/types"
 	"fmt"
+	"go/types"
 	"strings"
 
 	"golang.org/x/tools/go/ssa"
@@ -10,6 +10,14 @@ import (
 
 // C09 — snapshot install never rolls back or forks a node.
 func c09Snapshot(c *Check) {
+	c09Install(c)
+	// C09.L: leader side
+	c09Leader(c)
+	c09Promotable(c)
+}
+
+// c09Install: the receiving side (guards of raft.restore, new log base).
+func c09Install(c *Check) {
 	p := c.P
 	restore := p.Method("raft", "raft", "restore")
 	lrestore := p.Method("raft", "raftLog", "restore")
@@ -149,9 +157,6 @@ func c09Snapshot(c *Check) {
 		}
 		c.Result(ok, "C09.B", "unstable.restore sets "+name, fnName(urestore), p.Pos(urestore.Pos()), "new base: offset=s.index+1, offsetInProgress=offset, entries=nil, snapshot=s, snapshotInProgress=false", detail)
 	}
-	// C09.L: leader side
-	c09Leader(c)
-	c09Promotable(c)
 }
 
 // C09.E — a node with a pending snapshot does not campaign.
